@@ -438,3 +438,131 @@ Proof.
     + apply Hbefore. unfold scan_pos. destruct rtl; lia.
     + unfold scan_far, scan_pos. destruct rtl; lia.
 Qed.
+
+(* ------------------------------------------------------------------------------------------ *)
+(* fuel monotonicity of the list-valued semantics: more fuel never changes an Ok answer        *)
+
+Lemma sp_bindl_mono {A B} (g g' : A -> res (list B)) :
+  (forall a l, g a = Ok l -> g' a = Ok l) ->
+  forall la l, bindl la g = Ok l -> bindl la g' = Ok l.
+Proof.
+  intros Hg. induction la as [|a la IH]; intros l H; cbn [bindl] in *; [exact H|].
+  apply sp_bind_ok in H. destruct H as [x [Hx H]].
+  apply sp_bind_ok in H. destruct H as [y [Hy H]].
+  rewrite (Hg a x Hx). cbn [bind]. rewrite (IH y Hy). cbn [bind]. exact H.
+Qed.
+
+Lemma sp_bindr_mono {A B} (r r' : res (list A)) (g g' : A -> res (list B)) l :
+  (forall la, r = Ok la -> r' = Ok la) ->
+  (forall a l0, g a = Ok l0 -> g' a = Ok l0) ->
+  bindr r g = Ok l -> bindr r' g' = Ok l.
+Proof.
+  intros Hr Hg H. apply sp_bindr_ok in H. destruct H as [la [Hla H]].
+  unfold bindr. rewrite (Hr la Hla). cbn [bind]. exact (sp_bindl_mono g g' Hg la l H).
+Qed.
+
+Lemma sp_appr_mono {A} (a a' b b' : res (list A)) l :
+  (forall x, a = Ok x -> a' = Ok x) -> (forall y, b = Ok y -> b' = Ok y) ->
+  appr a b = Ok l -> appr a' b' = Ok l.
+Proof.
+  intros Ha Hb H. apply sp_appr_ok in H. destruct H as [x [y [Hx [Hy Hl]]]].
+  unfold appr. rewrite (Ha x Hx), (Hb y Hy). cbn [bind]. subst l. reflexivity.
+Qed.
+
+Lemma sp_first_only_mono {A} (r r' : res (list A)) l :
+  (forall x, r = Ok x -> r' = Ok x) -> first_only r = Ok l -> first_only r' = Ok l.
+Proof.
+  intros Hr H. apply sp_first_only_ok in H. destruct H as [l0 [H0 Hl]].
+  unfold first_only. rewrite (Hr l0 H0). cbn [bind]. subst l. reflexivity.
+Qed.
+
+Lemma spec_iter_mono (b b' : st -> res (list st)) :
+  (forall s l, b s = Ok l -> b' s = Ok l) ->
+  forall f f', (f <= f')%nat ->
+  forall lazy limit s mark count l,
+    iter f b lazy limit s mark count = Ok l -> iter f' b' lazy limit s mark count = Ok l.
+Proof.
+  intros Hb. induction f as [|f IH]; intros f' Hle lazy limit s mark count l H; [discriminate H|].
+  destruct f' as [|f']; [lia|]. cbn [iter] in *.
+  assert (Hagain : forall la,
+    bindr (b s) (fun s' => iter f b lazy limit s' (pos s) (count + 1)) = Ok la ->
+    bindr (b' s) (fun s' => iter f' b' lazy limit s' (pos s) (count + 1)) = Ok la).
+  { intros la. apply sp_bindr_mono; [apply Hb|].
+    intros a l0. apply IH. lia. }
+  destruct lazy.
+  - destruct (count <? 0); [exact (Hagain l H)|].
+    revert H. apply sp_appr_mono; [intros x Hx; exact Hx|].
+    destruct ((count <? limit) && negb (pos s =? mark)); [exact Hagain|intros y Hy; exact Hy].
+  - destruct ((limit <=? count) || ((pos s =? mark) && (0 <=? count))); [exact H|].
+    revert H. apply sp_appr_mono; [exact Hagain|intros y Hy; exact Hy].
+Qed.
+
+Theorem spec_sem_fuel_mono e : forall f f', (f <= f')%nat ->
+  forall t s l, sem e f t s = Ok l -> sem e f' t s = Ok l.
+Proof.
+  induction f as [|f IH]; intros f' Hle t s l H; [discriminate H|].
+  destruct f' as [|f']; [lia|].
+  assert (IH' : forall t s l, sem e f t s = Ok l -> sem e f' t s = Ok l).
+  { apply IH. lia. }
+  clear IH.
+  destruct t as [kd o c|kd lk o c m n|o str|o g|a| | | |o cl|o cl|lazy o m n r|o g u r|r|o r|o r|r
+                |o g yes no|o c yes no];
+    cbn [sem] in *; try exact H.
+  - (* NConcat *)
+    revert s l H. induction cl as [|x l' IHl]; intros s l H; [exact H|].
+    revert H. apply sp_bindr_mono; [apply IH'|exact IHl].
+  - (* NAlternate *)
+    revert l H. induction cl as [|x l' IHl]; intros l H; [exact H|].
+    revert H. apply sp_appr_mono; [apply IH'|exact IHl].
+  - (* NLoop *)
+    assert (HI : forall lazy limit s mark count l,
+               iter f (sem e f r) lazy limit s mark count = Ok l ->
+               iter f' (sem e f' r) lazy limit s mark count = Ok l).
+    { apply (spec_iter_mono (sem e f r) (sem e f' r) (IH' r)). lia. }
+    destruct (m =? 0); [exact (HI _ _ _ _ _ _ H)|].
+    revert H. apply sp_bindr_mono; [apply IH'|]. intros a l0. apply HI.
+  - (* NCapture *)
+    destruct (u =? -1); revert H; (apply sp_bindr_mono; [apply IH'|]); intros a l0 Ha; exact Ha.
+  - exact (IH' _ _ _ H).
+  - apply sp_bind_ok in H. destruct H as [l1 [H1 H]].
+    rewrite (sp_first_only_mono _ (sem e f' r s) l1 (IH' r s) H1). exact H.
+  - apply sp_bind_ok in H. destruct H as [l1 [H1 H]].
+    rewrite (IH' r s l1 H1). exact H.
+  - revert H. apply sp_first_only_mono. apply IH'.
+  - destruct (is_matched g (caps s)); [exact (IH' _ _ _ H)|].
+    destruct no as [n|]; [exact (IH' _ _ _ H)|exact H].
+  - apply sp_bind_ok in H. destruct H as [l1 [H1 H]].
+    rewrite (sp_first_only_mono _ (sem e f' c s) l1 (IH' c s) H1). cbn [bind].
+    destruct l1 as [|s' l1].
+    + destruct no as [n|]; [exact (IH' _ _ _ H)|exact H].
+    + exact (IH' _ _ _ H).
+Qed.
+
+(* hence: once the list-valued semantics terminates with some fuel, the continuation-passing
+   search gives the same answer with any larger fuel *)
+Corollary spec_semk_fuel_indep e f f' t s l k :
+  (f <= f')%nat -> sem e f t s = Ok l -> semk e f' t s k = first_some k l.
+Proof.
+  intros Hle H. apply semk_sem. exact (spec_sem_fuel_mono e f f' Hle t s l H).
+Qed.
+
+Corollary spec_attempt_fuel_mono e f f' root p r :
+  (f <= f')%nat -> attempt e f root p = Ok r -> attempt e f' root p = Ok r.
+Proof.
+  intros Hle H. unfold attempt in *. apply sp_bind_ok in H. destruct H as [l [Hl H]].
+  rewrite (spec_sem_fuel_mono e f f' Hle root _ l Hl). exact H.
+Qed.
+
+Corollary spec_find_fuel_mono e f f' root rtl start prevlen r :
+  (f <= f')%nat -> find e f root rtl start prevlen = Ok r -> find e f' root rtl start prevlen = Ok r.
+Proof.
+  intros Hle. unfold find.
+  destruct ((prevlen =? 0) && (start =? (if rtl then 0 else tlen e))); [intros H; exact H|].
+  generalize (S (Z.to_nat (tlen e))) as n.
+  generalize (if prevlen =? 0 then if rtl then start - 1 else start + 1 else start) as p.
+  intros p n. revert p. induction n as [|n IH]; intros p H; [exact H|].
+  cbn [scan_from] in *. apply sp_bind_ok in H. destruct H as [a [Ha H]].
+  rewrite (spec_attempt_fuel_mono e f f' root p a Hle Ha). cbn [bind].
+  destruct a as [s|]; [exact H|].
+  destruct (if rtl then p <=? 0 else tlen e <=? p); [exact H|]. apply IH. exact H.
+Qed.
